@@ -299,6 +299,13 @@ def run(fx, chk, tier):
                 if last_ in ("try_for_each", "try_fold", "for_each") and full.startswith("<core::slice::iter::IterMut<") and "Mp4TrackWriter" in full.split(" as ")[0] and uses_closure:
                     if moov_w[0] is None or not wbody.can_reach(moov_w[0], b):
                         visit = (cid, b, last_)
+                if last_ == "map" and full.startswith("<core::slice::iter::IterMut<") and "Mp4TrackWriter" in full.split(" as ")[0] and uses_closure:
+                    # `tracks.iter_mut().map(|t| t.write_end(w)).collect::<Result<Vec<_>>>()?`: map is lazy, the collect
+                    # that drives it (front to back, stopping at the first Err) must come before the movie box
+                    coll = [b2 for b2, t2 in wbody.calls() if strip_generics(t2["callee"].get("path") or "").split("::")[-1] == "collect"
+                            and "Map<core::slice::iter::IterMut<" in (t2["callee"].get("full") or "") and "Mp4TrackWriter" in (t2["callee"].get("full") or "") and wbody.can_reach(b, b2)]
+                    if len(coll) == 1 and (moov_w[0] is None or not wbody.can_reach(moov_w[0], coll[0])):
+                        visit = (cid, coll[0], "map-collect")
         ok = visit is not None
     chk.require(ok, "R2", "write_end|all-tracks", "track write_end called in the loop over the track writers, before moov.write_box",
                 "Mp4Writer::write_end does not flush every track writer before producing the movie box", site_of(we))
@@ -389,6 +396,31 @@ def run(fx, chk, tier):
     for g_ in helpers3:
         gm += [(body_of(g_), b, t) for b, t in body_of(g_).calls() if (t["callee"].get("path") or "").endswith("get_mut")]
     ok = len(gm) == 1 and "Sub(track_id as usize, 1)" in gm[0][0].deep_str(gm[0][2]["args"][1])
+    if not gm:
+        # `(track_id as usize).checked_sub(1).and_then(|i| tracks.get_mut(i))`: the index handed to get_mut is the
+        # closure's parameter, and the closure is the and_then continuation of checked_sub(track_id as usize, 1)
+        cgm = []
+        for cid in [k for k in fx.fns if k.startswith(ww["id"] + "::{closure")]:
+            cb_ = body_of(fx.fns[cid])
+            if cb_ is None:
+                continue
+            cgm += [(cid, cb_, t) for _b, t in cb_.calls() if (t["callee"].get("path") or "").endswith("get_mut")]
+        if len(cgm) == 1:
+            cid, cb_, t = cgm[0]
+            pl_ = op_place(t["args"][1])
+            for _i in range(4):
+                # copies of the closure's parameter (_2)
+                if pl_ is None or pl_["p"] or pl_["l"] == 2:
+                    break
+                sd_ = cb_.single_def(pl_["l"])
+                if sd_ is None or sd_[2] != "assign" or sd_[3]["k"] != "use":
+                    break
+                pl_ = op_place(sd_[3]["a"])
+            is_param = pl_ is not None and pl_["l"] == 2 and not pl_["p"]
+            csub = [(b, t2) for b, t2 in b3.calls() if strip_generics(t2["callee"].get("path") or "").split("::")[-1] == "checked_sub"
+                    and "track_id as usize" in b3.deep_str(t2["args"][0]) and b3.deep_str(t2["args"][1]).strip() in ("1", "const 1_usize", "1_usize")]
+            andthen = [(b, t2) for b, t2 in b3.calls() if strip_generics(t2["callee"].get("path") or "").split("::")[-1] == "and_then" and "Option::<usize>" in (t2["callee"].get("full") or "")]
+            ok = is_param and len(csub) == 1 and len(andthen) == 1 and b3.dominates(csub[0][0], andthen[0][0]) and "checked_sub" in b3.deep_str(andthen[0][1]["args"][0])
     chk.require(ok, "R4", "write_sample", "tracks[track_id - 1]", "write_sample does not address track track_id - 1", site_of(ww))
     pushes = [(b, t) for b, t in wbody.calls() if (t["callee"].get("path") or "").endswith("Vec::<T, A>::push") and wbody.op_str(t["args"][0]).endswith("moov.traks")]
     ok = len(pushes) == 1 and flush_calls and wbody.in_loop(pushes[0][0]) and wbody.dominates(flush_calls[0], pushes[0][0])
@@ -420,6 +452,13 @@ def run(fx, chk, tier):
             return txt
         pu = [b for b, t in cb.calls() if (t["callee"].get("path") or "").endswith("Vec::<T, A>::push") and ("traks" in capture_src(t["args"][0]) or "TrakBox>" in str((op_place(t["args"][0]) or {}).get("ty") or ""))]
         ok = len(fl) == 1 and len(pu) == 1 and cb.dominates(fl[0], pu[0])
+        if visit[2] == "map-collect":
+            # the closure yields the flush result itself; collect keeps iteration order; the collected vector is what
+            # the movie box receives (a store of a Vec<TrakBox> into moov.traks after the collect, no reordering call)
+            stores = [1 for pb_ in wbody.reach for st_ in wbody.stmts(pb_) if st_["k"] == "assign" and wbody.place_str(st_["place"]).endswith("moov.traks")]
+            reorder = [t["callee"].get("path") for _b, t in wbody.calls() if strip_generics(t["callee"].get("path") or "").split("::")[-1] in
+                       ("sort", "sort_by", "sort_by_key", "sort_unstable", "sort_unstable_by", "sort_unstable_by_key", "reverse", "swap", "rotate_left", "rotate_right", "retain", "dedup", "dedup_by_key", "remove", "swap_remove", "insert", "rev")]
+            ok = len(fl) == 1 and not pu and len(stores) == 1 and not reorder
     chk.require(ok, "R4", "write_end", "traks pushed in track-vector order", "write_end does not emit the trak boxes in the order of the track vector", site_of(we))
     # ---------------- R6 / R7
     import c01_tables
